@@ -3,6 +3,10 @@ package props
 import (
 	"fmt"
 
+	"github.com/Azbesciak/RealDecisionMaker/lib/logic/preference-func/electreIII"
+	"github.com/Azbesciak/RealDecisionMaker/lib/model"
+	"github.com/Azbesciak/RealDecisionMaker/lib/utils"
+
 	. "rdmverif/engine"
 )
 
@@ -15,6 +19,7 @@ func init() {
 		Rule: "E1 over the C05 request space (n in 2..4, m in {1,2}, values {0,1,2} full product, options within 2 deviations; n=4/m=2 within 1): for every instance " +
 			"(a) every pair with a>=b on all signed criteria: asc(a)<=asc(b), desc(a)<=desc(b), b in links(a); (b) identical alternatives: identical indices, mutual links; " +
 			"(c) every permutation of the listing (all n!; quick tier n=4/m=2: rotations+reversal): same per-id indices; (d) all weights k x {0.5,2,4} (quick n=4/m=2: x2): same indices. " +
+			"Plus (e) the dominance clauses on a three-criteria grid in which all criteria may veto (n=3, values {0,1,2}^9, 27 threshold layouts x 2 weight vectors) and (f) dominance at the level of the credibility matrix (a dominates b: sigma(a,b)=1, row a >= row b, column a <= column b) on every 3x3 matrix over 5 levels and every 4x4 matrix over 3 levels (thorough: 7 / 5 levels) x 4 distillation functions through the exported distillation entry points. " +
 			"distinct_nontrivial = distinct base responses that contain at least one dominating pair and >=2 classes.",
 		Assume: []string{"metamorphic relations are checked between runs of the implementation itself"},
 		Run:    c06Run,
@@ -49,7 +54,87 @@ func cfgFromParams(p map[string]interface{}) eleCfg {
 	return cfg
 }
 
+// c06Matrix: dominance at the level of the credibility matrix. If a is at least as good as b on every criterion then
+// sigma(a,b)=1, sigma(a,x)>=sigma(b,x) and sigma(x,a)<=sigma(x,b) for every other x; on every such matrix neither
+// distillation may put b into a better class than a.
+func c06Matrix(c *Case) []Violation {
+	n := int(asF(c.Params["n"]))
+	flat := toFloats(c.Params["sigma"])
+	d := distFn{A: asF(c.Params["a"]), B: asF(c.Params["b"])}
+	sigma := make([][]float64, n)
+	rows := make([][]float64, n)
+	k := 0
+	for i := 0; i < n; i++ {
+		sigma[i] = make([]float64, n)
+		rows[i] = make([]float64, n)
+		for j := 0; j < n; j++ {
+			if i == j {
+				rows[i][j] = 1
+				continue
+			}
+			sigma[i][j], rows[i][j] = flat[k], flat[k]
+			k++
+		}
+	}
+	var pairs [][2]int
+	for a := 0; a < n; a++ {
+		for b := 0; b < n; b++ {
+			if a == b || sigma[a][b] != 1 {
+				continue
+			}
+			ok := true
+			for x := 0; x < n; x++ {
+				if x != a && x != b && (sigma[a][x] < sigma[b][x] || sigma[x][a] > sigma[x][b]) {
+					ok = false
+				}
+			}
+			if ok {
+				pairs = append(pairs, [2]int{a, b})
+			}
+		}
+	}
+	if len(pairs) == 0 {
+		return nil
+	}
+	ids := ids6[:n]
+	alts := model.Alternatives(ids)
+	var asc, desc []int
+	failed := ""
+	func() {
+		defer func() {
+			if e := recover(); e != nil {
+				failed = fmt.Sprint(e)
+			}
+		}()
+		fn := &utils.LinearFunctionParameters{A: d.A, B: d.B}
+		asc = *electreIII.RankAscending(&electreIII.AlternativesMatrix{Alternatives: &alts, Values: electreIII.NewMatrix(&rows)}, fn)
+		desc = *electreIII.RankDescending(&electreIII.AlternativesMatrix{Alternatives: &alts, Values: electreIII.NewMatrix(&rows)}, fn)
+	}()
+	if failed != "" {
+		return []Violation{viol(c, "C06/matrix-panic", "distillation failed: %s", failed)}
+	}
+	if cur != nil {
+		cur.Outcome(true, "matrix", flat, d.A, d.B)
+	}
+	var vs []Violation
+	for _, p := range pairs {
+		if asc[p[0]] > asc[p[1]] {
+			vs = append(vs, viol(c, "C06/matrix-dominance-ascending", "%s dominates %s in the credibility matrix but the best-first distillation gives classes %v", ids[p[0]], ids[p[1]], asc))
+		}
+		if desc[p[0]] > desc[p[1]] {
+			vs = append(vs, viol(c, "C06/matrix-dominance-descending", "%s dominates %s in the credibility matrix but the worst-first distillation gives classes %v", ids[p[0]], ids[p[1]], desc))
+		}
+	}
+	return vs
+}
+
 func c06Check(c *Case) []Violation {
+	if c.Kind == "matrix" {
+		return c06Matrix(c)
+	}
+	if c.Kind == "veto" {
+		return c06Dominance(c)
+	}
 	cfg := cfgFromParams(c.Params)
 	req := eleRequest(cfg)
 	base, links, errs := eleIndices(req)
@@ -156,8 +241,114 @@ func c06Check(c *Case) []Violation {
 	return vs
 }
 
+// c06Dominance: dominance / identity clauses only (one run per instance) — used on the three-criteria veto grid.
+func c06Dominance(c *Case) []Violation {
+	cfg := cfgFromParams(c.Params)
+	base, links, errs := eleIndices(eleRequest(cfg))
+	if base == nil {
+		return []Violation{viol(c, "C06/rejected", "valid ELECTRE III request rejected: %s", errs)}
+	}
+	var vs []Violation
+	m := len(cfg.Types)
+	for a := 0; a < cfg.N; a++ {
+		for b := 0; b < cfg.N; b++ {
+			if a == b {
+				continue
+			}
+			ge := true
+			for j := 0; j < m; j++ {
+				sg := 1.0
+				if cfg.Types[j] == "cost" {
+					sg = -1
+				}
+				if sg*cfg.Vals[a][j] < sg*cfg.Vals[b][j] {
+					ge = false
+				}
+			}
+			ia, ib := base[ids6[a]], base[ids6[b]]
+			if ge && (ia[0] > ib[0] || ia[1] > ib[1]) {
+				vs = append(vs, viol(c, "C06/dominance-class", "%s is at least as good as %s on every criterion but has indices %v vs %v", ids6[a], ids6[b], ia, ib))
+			} else if ge && !contains(links[ids6[a]], ids6[b]) {
+				vs = append(vs, viol(c, "C06/dominance-link", "%s is at least as good as %s on every criterion but does not list it (links %v)", ids6[a], ids6[b], links[ids6[a]]))
+			}
+		}
+	}
+	if cur != nil {
+		cur.Outcome(true, "veto", fmt.Sprint(cfg), fmt.Sprint(base))
+	}
+	return vs
+}
+
+func c06VetoAndMatrixGrids(s *Shard) {
+	// three criteria that can all veto, three alternatives (a dominated near-twin next to a third alternative)
+	shapes := []thr{{}, {P: 0.5, V: 1.5}, {P: 0.5, V: 2.5}}
+	ks := [][]float64{{1, 1, 1}, {1, 1, 2}}
+	dims := make([]int, 9)
+	for i := range dims {
+		dims[i] = 3
+	}
+	Product(dims, func(idx []int) {
+		if !s.Take() {
+			return
+		}
+		vals := [][]float64{{float64(idx[0]), float64(idx[1]), float64(idx[2])}, {float64(idx[3]), float64(idx[4]), float64(idx[5])}, {float64(idx[6]), float64(idx[7]), float64(idx[8])}}
+		dom := false
+		for a := 0; a < 3 && !dom; a++ {
+			for b := 0; b < 3; b++ {
+				if a != b && vals[a][0] >= vals[b][0] && vals[a][1] >= vals[b][1] && vals[a][2] >= vals[b][2] {
+					dom = true
+				}
+			}
+		}
+		if !dom {
+			return
+		}
+		Product([]int{3, 3, 3, 2}, func(o []int) {
+			cfg := eleCfg{N: 3, Vals: vals, Types: []string{"gain", "gain", "gain"}, Thr: []thr{shapes[o[0]], shapes[o[1]], shapes[o[2]]}, K: ks[o[3]], Dist: eleDists[0]}
+			c := &Case{Prop: "C06", Kind: "veto", Params: M{"cfg": cfg}}
+			s.Evals++
+			s.Begin(c)
+			s.Report(c06Dominance(c))
+		})
+	})
+	// credibility matrices
+	type mg struct {
+		n  int
+		lv []float64
+	}
+	grids := []mg{{3, []float64{0, 0.25, 0.5, 0.75, 1}}, {4, []float64{0, 0.5, 1}}}
+	if !quick(s) {
+		grids = []mg{{3, []float64{0, 0.125, 0.25, 0.5, 0.75, 0.875, 1}}, {4, []float64{0, 0.25, 0.5, 0.75, 1}}}
+	}
+	for _, g := range grids {
+		dims := make([]int, g.n*(g.n-1))
+		for i := range dims {
+			dims[i] = len(g.lv)
+		}
+		Product(dims, func(idx []int) {
+			if !s.Take() {
+				return
+			}
+			flat := make([]float64, len(idx))
+			for i, k := range idx {
+				flat[i] = g.lv[k]
+			}
+			for di, d := range []distFn{eleDists[1], {}, eleDists[2], eleDists[3]} {
+				if quick(s) && g.n == 4 && di > 0 {
+					break // 4x4 in the quick tier: default distillation function only
+				}
+				c := &Case{Prop: "C06", Kind: "matrix", Params: M{"n": g.n, "sigma": flat, "a": d.A, "b": d.B}}
+				s.Evals++
+				s.Begin(c)
+				s.Report(c06Matrix(c))
+			}
+		})
+	}
+}
+
 func c06Run(s *Shard) {
 	cur = s
+	c06VetoAndMatrixGrids(s)
 	liteEnum = quick(s)
 	sampled := 0
 	eleEnumerate(s, "C06", func(c *Case, cfg eleCfg) {
